@@ -10,7 +10,7 @@ import signal
 from .common import NCPU
 
 
-class _Timeout(Exception):
+class _Timeout(BaseException):  # must not be swallowed by "except Exception" in oracles
     pass
 
 
